@@ -59,3 +59,10 @@ Definition lower_bytes (b : bytes) : bytes := map lower_byte b.
 Definition take (n : N) (b : bytes) : bytes := firstn (N.to_nat n) b.
 Definition drop (n : N) (b : bytes) : bytes := skipn (N.to_nat n) b.
 Definition blen (b : bytes) : N := N.of_nat (length b).
+
+(* compact spelling of a byte string in generated case files:
+   [Bx len 0x<hex>] is the len bytes whose big-endian value is the number *)
+Fixpoint bytes_of_N_aux (n : nat) (x : N) (acc : bytes) : bytes :=
+  match n with O => acc | S k => bytes_of_N_aux k (x / 256) (x mod 256 :: acc) end.
+Definition Bx (len x : N) : bytes := bytes_of_N_aux (N.to_nat len) x [].
+Arguments Bx _%N _%N.
